@@ -61,7 +61,22 @@ impl writer::Normalized for QW {}
 static WARN_MODE: std::sync::atomic::AtomicBool = std::sync::atomic::AtomicBool::new(false);
 
 fn log_hook(s: &str) {
-    if WARN_MODE.load(std::sync::atomic::Ordering::Relaxed) {
+    let warn = WARN_MODE.load(std::sync::atomic::Ordering::Relaxed);
+    // One log in five is emitted the way a step does it that hands work to a helper thread and
+    // waits for it: from that thread, where no span is entered, with the step's span as the
+    // explicit parent of the event.
+    if vlab::tape::hash_str(s) % 5 == 0 {
+        let span = tracing::Span::current();
+        let s = s.to_string();
+        let _ = std::thread::spawn(move || {
+            if warn {
+                tracing::warn!(parent: &span, "{s}");
+            } else {
+                tracing::info!(parent: &span, "{s}");
+            }
+        })
+        .join();
+    } else if warn {
         tracing::warn!("{s}");
     } else {
         tracing::info!("{s}");
